@@ -310,7 +310,13 @@ def random_graph(rnd, nmax):
             if rnd.random() < dens and types[c] in ('or', 'and'):
                 edges.append((p, c))
                 if rnd.random() < 0.05: edges.append((p, c))
-    return late_ttc(mk_nodes(types, edges, defs, exists, ttcs, rnd), rnd)
+    nodes = late_ttc(mk_nodes(types, edges, defs, exists, ttcs, rnd), rnd)
+    for nd in nodes:
+        # tags do not enter the analysis: a suppressed defense is labelled from its status like any other (the
+        # query layer is what looks at 'suppress')
+        if nd['type'] == 'defense' and rnd.random() < 0.3: nd['tags'] = ['suppress']
+        elif rnd.random() < 0.05: nd['tags'] = [rnd.choice(['suppress', 'hidden'])]
+    return nodes
 
 def compare(nodes, im, mo):
     """property observables: the two label vectors"""
